@@ -16,14 +16,38 @@ Proof.
   symmetry. apply Permutation_middle.
 Qed.
 
-Lemma trig_get_items_perm s : Permutation (items (fst (trig_get s))) (items s).
+Lemma trig_get1_items_perm s : Permutation (items (fst (trig_get1 s))) (items s).
 Proof.
-  unfold trig_get. destruct (getq s) as [|r q]; simpl; auto.
+  unfold trig_get1. destruct (getq s) as [|r q]; simpl; auto.
   destruct (admit_get s); simpl; auto.
   destruct (split_first _ _) as [[[a x] b]|] eqn:E; simpl; auto.
   apply split_first_perm in E.
   rewrite <- (firstn_skipn (length (getres s)) (items s)) at 2.
   apply Permutation_app_head. symmetry. exact E.
+Qed.
+
+Lemma trig_get1_items_len s : length (items (fst (trig_get1 s))) = length (items s).
+Proof. apply Permutation_length, trig_get1_items_perm. Qed.
+
+(* whatever one attempt preserves, the whole trigger loop preserves *)
+Lemma trig_get_n_lift (P : store -> Prop) :
+  (forall s, P s -> P (fst (trig_get1 s))) -> forall n s, P s -> P (fst (trig_get_n n s)).
+Proof.
+  intros H n. induction n as [|n IH]; simpl; intros s Hs; auto.
+  specialize (H s Hs). destruct (trig_get1 s) as [s1 ts]. simpl in H.
+  destruct ts; simpl; auto. specialize (IH s1 H). destruct (trig_get_n n s1); simpl in *; auto.
+Qed.
+
+Lemma trig_get_lift (P : store -> Prop) :
+  (forall s, P s -> P (fst (trig_get1 s))) -> forall s, P s -> P (fst (trig_get s)).
+Proof.
+  intros H s Hs. unfold trig_get. destruct (s_kind s); auto. apply trig_get_n_lift; auto.
+Qed.
+
+Lemma trig_get_items_perm s : Permutation (items (fst (trig_get s))) (items s).
+Proof.
+  apply (trig_get_lift (fun x => Permutation (items x) (items s))); auto.
+  intros x Hx. rewrite trig_get1_items_perm. exact Hx.
 Qed.
 
 Lemma trig_get_items_len s : length (items (fst (trig_get s))) = length (items s).
@@ -36,14 +60,17 @@ Proof.
   rewrite app_length; simpl; lia.
 Qed.
 
-Lemma trig_get_cap s : CapInv s -> CapInv (fst (trig_get s)).
+Lemma trig_get1_cap s : CapInv s -> CapInv (fst (trig_get1 s)).
 Proof.
-  intros H. pose proof (trig_get_items_len s) as L. revert L.
-  unfold trig_get, CapInv, admit_get in *. destruct (getq s) as [|r q]; simpl; auto.
+  intros H. pose proof (trig_get1_items_len s) as L. revert L.
+  unfold trig_get1, CapInv, admit_get in *. destruct (getq s) as [|r q]; simpl; auto.
   destruct (Nat.ltb_spec (length (getres s)) (length (items s))); simpl; auto.
   destruct (split_first _ _) as [[[a x] b]|] eqn:E; simpl; auto.
   intros L. rewrite L, app_length; simpl; lia.
 Qed.
+
+Lemma trig_get_cap s : CapInv s -> CapInv (fst (trig_get s)).
+Proof. apply trig_get_lift. apply trig_get1_cap. Qed.
 
 Lemma trig_put_fields s :
   let s' := fst (trig_put s) in
@@ -54,14 +81,26 @@ Proof.
   destruct (admit_put s); simpl; repeat split.
 Qed.
 
+Lemma trig_get1_fields s :
+  let s' := fst (trig_get1 s) in
+  cap s' = cap s /\ putq s' = putq s /\ putres s' = putres s /\
+  next s' = next s /\ s_kind s' = s_kind s /\ now s' = now s /\ tdelay s' = tdelay s.
+Proof.
+  unfold trig_get1. destruct (getq s); simpl; [repeat split|].
+  destruct (admit_get s); simpl; [|repeat split].
+  destruct (split_first _ _) as [[[a x] b]|]; simpl; repeat split.
+Qed.
+
 Lemma trig_get_fields s :
   let s' := fst (trig_get s) in
   cap s' = cap s /\ putq s' = putq s /\ putres s' = putres s /\
   next s' = next s /\ s_kind s' = s_kind s /\ now s' = now s /\ tdelay s' = tdelay s.
 Proof.
-  unfold trig_get. destruct (getq s); simpl; [repeat split|].
-  destruct (admit_get s); simpl; [|repeat split].
-  destruct (split_first _ _) as [[[a x] b]|]; simpl; repeat split.
+  apply (trig_get_lift (fun x => cap x = cap s /\ putq x = putq s /\ putres x = putres s /\
+           next x = next s /\ s_kind x = s_kind s /\ now x = now s /\ tdelay x = tdelay s)).
+  - intros x (A & B & C & D & E & F & G).
+    destruct (trig_get1_fields x) as (A' & B' & C' & D' & E' & F' & G'). repeat split; congruence.
+  - repeat split.
 Qed.
 
 Lemma trig_put_items s : items (fst (trig_put s)) = items s.
